@@ -52,6 +52,13 @@ def check_state(st, fs):
              'from_to': histogram(coll, 'from_to').load_collective, 'collective_df': collective_frame(coll).load_collective,
              'range_descending': histogram(coll[::-1], 'range').load_collective, 'range_rotated': histogram(shuffled, 'range').load_collective,
              'range_int_counts': histogram(coll, 'range', np.int64).load_collective, 'from_to_int_counts_rotated': histogram(shuffled, 'from_to', np.int64).load_collective}
+    # a class of amplitude exactly zero (a range class centred at zero / the diagonal of a from-to matrix), empty and occupied: it does no damage
+    def with_zero_class(n0):
+        h = histogram(coll, 'range')
+        z = pd.Series([float(n0)], index=pd.IntervalIndex.from_arrays([-0.5], [0.5], name='range'), name='cycles')
+        return pd.concat([z, h]).load_collective
+    forms['range_zero_class_empty'] = with_zero_class(0)
+    forms['range_zero_class_occupied'] = with_zero_class(3)
     base_forms = ('range', 'range_mean', 'from_to', 'collective_df')
     with warnings.catch_warnings():
         warnings.simplefilter('ignore')
@@ -93,7 +100,7 @@ def check_state(st, fs):
                     if not close(dp, 1.0, 1e-10):
                         viol.append(('applying the collective for the Gassner cycles of Miner %s gives damage %.6g, not 1, for a curve given at %g %% failure probability with scatter' % (rule, dp, 100 * pf),
                                      {**case, 'TN': 4.0, 'TS': 2.0, 'failure_probability': pf}, 1.0, dp))
-                for fname in ('range', 'from_to', 'collective_df', 'range_descending', 'range_rotated', 'range_int_counts', 'from_to_int_counts_rotated', 'history'):
+                for fname in ('range', 'from_to', 'collective_df', 'range_descending', 'range_rotated', 'range_int_counts', 'from_to_int_counts_rotated', 'range_zero_class_empty', 'range_zero_class_occupied', 'history'):
                     if fname == 'history':
                         lc = forms['range']
                         obj = getattr(scurve, acc)
@@ -106,7 +113,7 @@ def check_state(st, fs):
                     else:
                         lc = forms[fname]
                         ng = float(getattr(curve, acc).gassner_cycles(lc))
-                    per_cycle = float(curve.fatigue.damage(lc).sum()) / total          # damage of one pass through the collective per cycle
+                    per_cycle = float(curve.fatigue.damage(lc).sum()) / (total + (3 if fname == 'range_zero_class_occupied' else 0))          # damage of one pass through the collective per cycle
                     dmg = ng * per_cycle
                     model_exp = out['gassner_elem'] if rule == 'elementary' else out['gassner_haib']
                     if not close(dmg, 1.0, 1e-10):
